@@ -223,7 +223,47 @@ def judge_case(args):
                     first_bad_query=str(queries[bad[0]]) if bad else None,
                 )
             )
+    # a batch with a repeated query text (C13's known finding concerns only the key column of
+    # such rows; the number of rows and every answer must still be right)
+    if len(queries) >= 2 and configs:
+        system, pm = configs[0]
+        batch = [queries[0], queries[1], queries[0]] + list(queries[2:3])
+        expected = [ans.answer(system, q) for q in batch]
+        try:
+            got = run_real(sig, conds, batch, system, pm, weakly)
+        except BaseException as e:  # noqa
+            got = f"EXC {type(e).__name__}: {e}"
+        out["evaluations"] += len(batch)
+        if got != expected:
+            out["violations"].append(
+                dict(
+                    kind="wrong-answer-in-batch-with-repeated-query",
+                    system=system,
+                    pmaxsat=pm,
+                    weakly=weakly,
+                    input=describe(sig, conds, batch),
+                    expected=expected,
+                    observed=got,
+                )
+            )
     return out
+
+
+def rekey(conds, rng):
+    """non-default distinct integer keys for a third of the cases (shifted so that len+1 is a
+    key, 0-based, sparse): answers must not depend on them (C12) and key arithmetic in the
+    code under test must not collide with them"""
+    style = rng.randrange(6)
+    ks = list(conds)
+    if style >= 3:
+        return conds
+    if style == 0:
+        new = [k + 1 for k in ks]
+    elif style == 1:
+        new = [k - 1 for k in ks]
+    else:
+        new = sorted(rng.sample(range(1, 3 * len(ks) + 3), len(ks)))
+    return {nk: conds[k] for nk, k in zip(new, ks)}
 
 
 def texts_of(conds):
